@@ -580,6 +580,21 @@ def run(spec, ctx):
             return
         if spec.get("scale"):
             # documents and results of 1 KiB .. 2 MiB (output sizes on either side of 4 KiB, 64 KiB, 1 MiB buffers)
+            # results of exactly 1024 / 4096 / 8192 / 65536 values and one more or less (where a writer that works in blocks ends
+            # a block), compact and pretty, to standard output and to a file
+            if cmd == "path":
+                for count in (1023, 1024, 1025, 4095, 4096, 4097, 8191, 8192, 8193, 65536):
+                    dt = json.dumps({"a": list(range(count)), "g": [[i, i] for i in range(count // 2)]})
+                    for expr in ("$.a[*]", "$.a.*", "$.g[*][*]", "$..[?@ >= 0]"):
+                        if count > 10000 and expr != "$.a[*]":
+                            continue
+                        for pretty, out_file in ((False, False), (True, True), (True, False), (False, True)):
+                            opts = {"debug": False, "pretty": pretty, "no_unicode_escape": False, "expr_file": False, "doc_stdin": False, "out_file": out_file, "no_type_checks": False, "uri_decode": False}
+                            check(ctx, files, cmd, "valid", expr, True, opts, count in (4096, 8192), REPO, doc_text=dt)
+                            ctx.count("results_with_counts_around_powers_of_two")
+                            n += 1
+                    shutil.rmtree(tmp, ignore_errors=True)
+                    files = Files(tmp)
             for n_items in (20, 80, 1200, 1400, 6000, 24000):
                 big = {"items": [{"id": i, "name": "item-%d" % i, "tags": ["t%d" % (i % 7), "é"]} for i in range(n_items)], "s": "x" * (n_items * 3)}
                 dt = json.dumps(big)
